@@ -124,7 +124,7 @@ def exec_law(rec):
             sa = fabs.assemble(bu, uh=uh, vh=vh, **dict(kw), **prm)
             lhs, m1 = fem.frac_pairing(A, v, u)
             floor = fem.term_magnitude(F, fem.leaf_magnitudes(bu, u, ALL), fem.leaf_magnitudes(bv, v, ALL), Fm, prm, accs, bu.dx)
-            laws.append(('bil', lhs, Fraction(float(s)), m1 + Fraction(float(sa)) + floor))
+            laws.append(('bil', lhs, Fraction(float(s)), m1 + abs(Fraction(float(sa))) + floor))
         Fl = rec['lin']
         dv = bv.default_parameters()
         faccv = {n: fem.accessors(dv[n], ('value',)) for n in dv}
@@ -139,7 +139,7 @@ def exec_law(rec):
             sa = Functional(lambda w: np.abs(lcall(w))).assemble(bv, vh=vh, **prm)
             lhs, m1 = fem.frac_dot(b, v)
             floor = fem.term_magnitude(Fl, None, fem.leaf_magnitudes(bv, v, ALL), Fmv, prm, accl, bv.dx)
-            laws.append(('lin', lhs, Fraction(float(s)), m1 + Fraction(float(sa)) + floor))
+            laws.append(('lin', lhs, Fraction(float(s)), m1 + abs(Fraction(float(sa))) + floor))
         return laws
     laws, err = guarded(run, 120)
     ev = {'a': 'Law', 'err': err, 'laws': []}
